@@ -352,6 +352,8 @@ class ExprMixin:
 
     def equals(self, a, b):
         """Python `==`: Python bool or Sym bool."""
+        if isinstance(a, Ref) != isinstance(b, Ref):
+            a, b = self.unwrap_key(a), self.unwrap_key(b)      # A-KEY: a decoded item compared with a plain value
         if is_scalar(a) and is_scalar(b):
             if not isinstance(a, Sym) and not isinstance(b, Sym):
                 return a == b
@@ -430,6 +432,7 @@ class ExprMixin:
 
     def contains(self, container, item):
         """`item in container`: Python bool or Sym bool."""
+        item = self.unwrap_key(item)
         if isinstance(container, OldView) and isinstance(self.old_heap.get(container.ref.addr), MapCell):
             cell = self.old_heap[container.ref.addr]
             return mk("bool", z3.Select(cell.dom, self.map_key(cell, item)))
@@ -686,8 +689,18 @@ class ExprMixin:
         except (KeyError, IndexError, TypeError) as exc:
             raise PyRaise(ExcV(type(exc), exc.args))
 
+    def unwrap_key(self, key):
+        """A decoded data item used as a dictionary key or compared with a plain value stands for the value it holds (its
+        __hash__ / __eq__ delegate to the value): assumption A-KEY of the contracts that use spec.ext.AbsItem."""
+        if isinstance(key, Ref):
+            kc = self.path.cell(key)
+            if isinstance(kc, ObjCell) and "g_value" in kc.attrs:
+                return kc.attrs["g_value"]
+        return key
+
     def dict_key(self, cell, idx):
         """Resolve a (possibly symbolic) key against the stored keys (concrete or SymKey) by forking over them."""
+        idx = self.unwrap_key(idx)
         if any(isinstance(k, SymKey) for k in cell.d) and not isinstance(idx, (Sym, SeqV)):
             for k in cell.d:
                 c = self.equals(k.sym if isinstance(k, SymKey) else k, idx)
